@@ -1,8 +1,9 @@
-SPECIFICATION Spec
+SPECIFICATION SimSpec
 CONSTANTS
   MaxInst = 6
   MaxWrappers = 5
   MaxDepth = 24
+  MaxMarks = 4
 INVARIANT AtMostOnce
 INVARIANT OnlyViaOwner
 INVARIANT OneOwner
